@@ -277,7 +277,7 @@ PROPS["C20"] = dict(
 )
 
 PROPS["C10"] = dict(
-    name="c10", thorough_rounds=3, sources=["props/c10.cpp"], engine="enumerator (deterministic corpus x configurations)",
+    name="c10", thorough_rounds=3, timeout_thorough=7200, sources=["props/c10.cpp"], engine="enumerator (deterministic corpus x configurations)",
     builds=[("asan", "native"), ("asan", "noasm"), ("asan", "noti"), ("asan", "portable"), ("asan", "nosimd"), ("plain", "mflags"), ("asan", "ndebug")],
     builds_thorough=[("asan", "native"), ("asan", "noasm"), ("asan", "noti"), ("asan", "portable"), ("asan", "nosimd"), ("plain", "native"), ("plain", "portable"), ("plain", "mflags"), ("plainclang", "mflags"), ("asan", "ndebug")],
     level="exploration",
@@ -383,7 +383,7 @@ ROUND7_ADD = {
  "C07": "giant_h2c: the four hash-to-group functions x both hashes over a sparse message of 2^32 + 5..8 bytes: b_0 of expand_message_xmd recomputed with the library's streaming SHA-256 / SHA-512, everything after b_0 by the reference model (composition validated against the full model on a short message in the same run).",
  "C08": "giant_scrypt: crypto_pwhash_scryptsalsa208sha256_ll (N=2, r=1) with 2^32 - 31, 2^32 and 2^32 + 40 bytes of output (sampled blocks T_i = HMAC-SHA-256(P, B || INT(i)) from the reference model, partial last block, nothing written beyond), and with p = 2^25 and 2^25 + 1 (4 GiB between the two PBKDF2 passes) against a composition of the library's streaming HMAC-SHA-256 and the reference BlockMix; the composition is checked against the full reference model at p = 1, 3, 33 in every tier.",
  "C09": "giant_chunk: small chunk, a chunk with a sparse message of 2^32 + 50 bytes (tags MESSAGE and REKEY), small FINAL chunk: tag byte and ciphertext windows around 2^32 and at the end against the model keystream at that block, the MAC against Poly1305 over the construction's MAC input fed through the library's streaming Poly1305, the pushing state afterwards against the model's, the receiver pulls all three chunks and the sampled windows of the giant message come back.",
- "C10": "simulated_cpus (harness/simcpu.hpp; non-sanitizer builds, one of them - variant mflags - compiled with the per-library machine flags of Makefile.am): in forked children CPUID is answered by the harness through CPUID faulting (9 AVX states: AVX-512F / AVX2 bits of leaf 7 cleared separately and together, the AVX bit of leaf 1 cleared with leaf 7 intact, OSXSAVE or XSAVE cleared; x 5 SSE levels x 4 AES-NI / PCLMUL states, RDRAND cleared in a third: 180 machines, about half in the quick tier), the library's detection and selection are re-run, and 18 calls (stream ciphers, BLAKE2b, Poly1305, X25519, AEGIS, AES-GCM, AEAD / secretbox compositions, Argon2i/id, scrypt, the internal random generator) are single-stepped (EFLAGS.TF): reported flags must be a subset of what the machine provides by the Intel SDM detection procedure, no executed instruction inside the executable may belong to an extension the machine lacks (VEX / EVEX, the 0F 38 / 0F 3A maps, SSE3, RDRAND; classifier pinned on 39 hand-assembled instructions), outputs must equal those with every feature masked off, the child must not die.",
+ "C10": "simulated_cpus (harness/simcpu.hpp; the non-sanitizer builds of variant mflags, which is compiled with the per-library machine flags of Makefile.am - gcc in the quick tier, gcc and clang in the thorough tier): in forked children CPUID is answered by the harness through CPUID faulting (9 AVX states: AVX-512F / AVX2 bits of leaf 7 cleared separately and together, the AVX bit of leaf 1 cleared with leaf 7 intact, OSXSAVE or XSAVE cleared; x 5 SSE levels x 4 AES-NI / PCLMUL states, RDRAND cleared in a third: 180 machines, all of them in the first thorough round of the gcc build, a fixed selection of 34 elsewhere), the library's detection and selection are re-run, and 18 calls (stream ciphers, BLAKE2b, Poly1305, X25519, AEGIS, AES-GCM, AEAD / secretbox compositions, Argon2i/id, scrypt, the internal random generator) are single-stepped (EFLAGS.TF): reported flags must be a subset of what the machine provides by the Intel SDM detection procedure, no executed instruction inside the executable may belong to an extension the machine lacks (VEX / EVEX, the 0F 38 / 0F 3A maps, SSE3, RDRAND; classifier pinned on 39 hand-assembled instructions), outputs must equal those with every feature masked off, the child must not die.",
  "C13": "Initial counters next to 2^32 and 2^64 for the _ic entry points; in-place and offset calls with 1 MiB + 1 .. 2 MiB + 5 bytes.",
  "C14": "giant_operands: sodium_compare / sodium_memcmp / sodium_is_zero over sparse operands of 2^32 and 2^32 + 16 bytes whose only differences lie at or above byte 2^32 - 1 (and, for compare, contradict the low bytes).",
  "C15": "giant_texts: 3 GiB + 1..3 bytes (2^31 + 1 for hex) encode to more than 2^32 characters: documented length (function and macro), terminator position, text windows around 2^32 and at the end against the model, decode(encode(x)) == x at sampled positions, decoded length and end pointer.",
